@@ -612,6 +612,58 @@ func propC13(c *Ctx) {
 		if o.Sites == 0 {
 			o.Fail(c.W.Pos(sp.Pos()), "no Params.Set in SetParams", nil)
 		}
+		// the same obligation at every entry point that writes Params, with all helpers inlined:
+		// whichever function performs the write, the stored value either leaves MaxValidators
+		// as loaded or is validated and shown to be >= the number of ALL stored validators
+		oe := c.Ob("C13.R6", "every entry that stores Params: MaxValidators untouched, or validated params with MaxValidators >= len(all stored validators)")
+		type ent struct {
+			fn *ssa.Function
+			po PO
+		}
+		noInl := []string{".Validate", "GetAllValidators", "Keeper).SetValidator", "SetValidatorByConsAddr", "ApplyAndReturnValidatorSetUpdates", "SetLastValidatorPower", "SetNextL", "types.NewValidator"}
+		for _, e := range []ent{
+			{childHandler(c, "UpdateParams"), PO{Params: hParams, Callbacks: true, NoInline: noInl}},
+			{c.Method(childKeeper, "Keeper", "InitGenesis"), PO{Params: []string{"k", "ctx", "data"}, Visits: 2, NoInline: noInl}},
+			{c.Method(childKeeper, "Keeper", "ChangeExecutor"), PO{Params: []string{"k", "ctx", "plan"}, Callbacks: true, NoInline: noInl}},
+		} {
+			for _, p := range c.Paths(e.fn, e.po) {
+				oe.Paths++
+				for _, i := range collEvents(p, len(p.Events), "Params", "Set") {
+					oe.Sites++
+					v := strip(p.Events[i].Call.Args[2])
+					// (a) the loaded params with other fields replaced
+					base := v
+					touched := false
+					for base.Op == "update" {
+						if base.Name == "MaxValidators" {
+							touched = true
+						}
+						base = strip(base.Args[0])
+					}
+					if !touched && strings.HasSuffix(base.Key(), "Get(k.Params, ctx).0") || !touched && strings.HasSuffix(base.Key(), "Get(ms.Keeper.Params, ctx).0") {
+						continue
+					}
+					// (b) validated, and not below the number of all stored validators
+					mv := strip(project(v, "MaxValidators", nil)).Key()
+					rel, n := p.Relation(i, func(t *Term) bool { return strip(t).Key() == mv }, func(t *Term) bool {
+						k := strip(t).Key()
+						return strings.HasPrefix(k, "builtin.len((opchild/keeper.Keeper).GetAllValidators(") && strings.HasSuffix(k, ").0)")
+					})
+					if n == 0 || rel&rLT != 0 {
+						oe.Fail(c.evPos(&p.Events[i]), fnShort(e.fn)+": params "+trunc(v.Key(), 60)+" stored with relation(MaxValidators, len(all stored validators)) = "+relString(rel)+"; must exclude < (a stored, not yet bonded validator would exceed the maximum at the next diff)", c.Dump(p, i))
+					}
+					if !p.HasFact(i, func(a *Term, pol bool) bool {
+						x := eqOther(a, "nil")
+						return pol && x != nil && x.Op == "call" && strings.HasSuffix(x.Name, "Params).Validate") && strip(x.Args[0]).Key() == v.Key()
+					}) {
+						oe.Fail(c.evPos(&p.Events[i]), fnShort(e.fn)+": params stored without Validate() == nil", c.Dump(p, i))
+					}
+				}
+			}
+		}
+		if oe.Sites < 3 {
+			oe.Fail("-", fmt.Sprintf("only %d Params.Set sites found at the entries (floor 3)", oe.Sites), nil)
+		}
 		ce := c.Method(childKeeper, "Keeper", "ChangeExecutor")
 		o2 := c.Ob("C13.R6", "ChangeExecutor: a direct Params.Set may only replace BridgeExecutors in the loaded params (MaxValidators untouched)")
 		for _, p := range c.Paths(ce, PO{Params: []string{"k", "ctx", "plan"}, Callbacks: true, NoInline: []string{"Keeper).SetValidator", "SetValidatorByConsAddr", "SetParams"}}) {
@@ -872,6 +924,7 @@ func propC14(c *Ctx) {
 		}
 	})
 
+	c.Rule("C14.R3", func() { executorHandover(c, "C14.R3") })
 	c.Rule("C14.R3", func() {
 		fn := c.Method(childKeeper, "Keeper", "ChangeExecutor")
 		o := c.Ob("C14.R3", "ChangeExecutor: zero every stored power in place; insert plan validator in both indexes; executors := plan.NextExecutors")
@@ -1055,4 +1108,40 @@ func sameArgs(a, b *Term) bool {
 		}
 	}
 	return true
+}
+
+// executorHandover: at the plan height the executor role changes hands for real - on every
+// success path of ChangeExecutor the params are stored exactly once, as the freshly loaded
+// params with BridgeExecutors := plan.NextExecutors, whichever helper performs the write
+// (helpers inlined), and the store's error is established nil.
+func executorHandover(c *Ctx, rule string) {
+	fn := c.Method(childKeeper, "Keeper", "ChangeExecutor")
+	o := c.Ob(rule, "ChangeExecutor: every success path stores the loaded params with BridgeExecutors := plan.NextExecutors (old holders lose, new holders gain the role)")
+	po := PO{Params: []string{"k", "ctx", "plan"}, Callbacks: true, NoInline: []string{"Keeper).SetValidator", "SetValidatorByConsAddr", ".Validate", "GetAllValidators"}}
+	nOK := 0
+	for _, p := range c.Paths(fn, po) {
+		o.Paths++
+		o.Facts += p.NFacts()
+		if !p.OK() || p.Panic {
+			continue
+		}
+		nOK++
+		o.Sites++
+		sets := collEvents(p, len(p.Events), "Params", "Set")
+		if len(sets) != 1 {
+			o.Fail(c.W.Pos(fn.Pos()), fmt.Sprintf("success path with %d Params.Set (want 1): the executor list is not replaced although the plan is reported applied", len(sets)), c.Dump(p, -1))
+			continue
+		}
+		ev := &p.Events[sets[0]]
+		v := strip(ev.Call.Args[2])
+		if v.Key() != "(collections.Item[V]).Get(k.Params, ctx).0{BridgeExecutors:=plan.NextExecutors}" {
+			o.Fail(c.evPos(ev), "stores params "+trunc(v.Key(), 160), c.Dump(p, sets[0]))
+		}
+		if !p.factIsOrRet(ev.Call) {
+			o.Fail(c.evPos(ev), "the error of the params store is not checked on a success path", c.Dump(p, sets[0]))
+		}
+	}
+	if nOK == 0 {
+		o.Fail(c.W.Pos(fn.Pos()), "no success path", nil)
+	}
 }
